@@ -218,12 +218,18 @@ class Assembled:
         return len(self.lines) + 1
 
 
-def assemble(vacuity=False, only_files=None, extra_theorems=True, extracted=None):
+def assemble(vacuity=False, only_files=None, extra_theorems=True, extracted=None, force_external=None):
+    """force_external: {fn key: reason} — functions whose body made the generated text fail to type-check: emitted without body,
+    contract assumed, reported as refused (graceful degradation instead of a global UNDECIDED)"""
     out_rs, meta = extracted if extracted is not None else run_extractor()
+    force_external = dict(force_external or {})
     fns, loops, impl_extra = parse_contracts(os.path.join(VERIF, "contracts"))
     src = open(out_rs).read()
     A = Assembled()
     A.meta = meta
+    A.refused = {k: v for k, v in (meta.get("refused_fns") or {}).items()}
+    for k, v in force_external.items():
+        A.refused.setdefault(k, []).append(v)
     A.add("// GENERATED by bin/vxlib.py from /repo/src (rules R1-R14, DESIGN.md 2.2) — do not edit")
     A.add("#![allow(unused_imports, dead_code, unused_variables, unused_mut, unused_parens, non_snake_case, unreachable_code, unused_braces, unreachable_patterns, type_alias_bounds)]")
     A.add("use vstd::prelude::*;")
@@ -279,7 +285,15 @@ def assemble(vacuity=False, only_files=None, extra_theorems=True, extracted=None
         ob = text.rfind("{", 0, m)
         head, body_rest = text[:ob], text[m + len(marker):]
         start_line = A.lineno()
-        if dup:
+        is_refused = key in A.refused
+        if is_refused and dup:
+            return
+        if is_refused:
+            body_rest = "\n    unimplemented!()\n}"
+            if c is not None:
+                used_fn_contracts.add(key)
+            A.add("#[verifier::external_body] /*REFUSED: body outside the extraction rules or not type-checkable; contract assumed*/")
+        elif dup:
             pass
         elif c is not None:
             used_fn_contracts.add(key)
@@ -315,7 +329,7 @@ def assemble(vacuity=False, only_files=None, extra_theorems=True, extracted=None
         elif vacuity:
             pass
         A.add("{")
-        if c is not None and c.proof.strip() and not c.external:
+        if c is not None and c.proof.strip() and not c.external and not is_refused:
             A.add("    proof {")
             A.add(c.proof.rstrip("\n"))
             A.add("    }")
@@ -624,6 +638,7 @@ def run_verus(path, rlimit=None, extra=None, timeout=1800):
 
 def classify(A, res):
     """map diagnostics to (fnkey,label) clause failures, function-level failures, and hard errors"""
+    hard_fns = {}           # fnkey -> first hard error inside that function (type error / unsupported construct)
     failed_clauses = {}     # (fnkey,label) -> [messages]
     failed_fns = {}         # fnkey -> [messages]   (assert / precondition / overflow ... inside the body)
     hard = []               # compile / type / unsupported errors -> undecided
@@ -652,6 +667,14 @@ def classify(A, res):
                              "failed this", "might not be allowed", "function body check")
         is_verif = any(v in msg for v in verification_msgs)
         if not is_verif:
+            prim = [sp for sp in spans if sp.get("is_primary")] or spans
+            k = None
+            for sp in prim:
+                k = fn_of_line(sp["line_start"])
+                if k:
+                    break
+            if k and not k.endswith("__vac"):
+                hard_fns.setdefault(k, d.get("rendered", msg)[:600])
             hard.append(d.get("rendered", msg)); continue
         attributed = False
         if msg.startswith("postcondition not satisfied"):
@@ -685,6 +708,7 @@ def classify(A, res):
                     theorem_fail.setdefault(theorem_at(A, ln), []).append(d.get("rendered", msg)); attributed = True; break
         if not attributed:
             hard.append(d.get("rendered", msg))
+    A.hard_fns = hard_fns
     return failed_clauses, failed_fns, theorem_fail, hard, rlimit
 
 
@@ -721,8 +745,8 @@ def scan_assumptions(A):
     for m in pat.finditer(rest):
         ln = text[:a].count("\n") + rest[:m.start()].count("\n") + 1
         eol = rest.find("\n", m.start())
-        if "/*R12*/" in rest[m.start():eol]:
-            continue   # generated field-wise Clone impls (rule R12), reported as an extraction assumption
+        if "/*R12*/" in rest[m.start():eol] or "/*REFUSED" in rest[m.start():eol]:
+            continue   # generated field-wise Clone impls (rule R12) / refused bodies: reported separately
         found.append((ln, m.group(1)))
     return pre, found
 
